@@ -46,6 +46,12 @@ class SymStr:
         return len(self.c)
 
     def __iter__(self):
+        # short strings: iteration yields real characters by forking over each character's feasible values, so that
+        # table lookups / dict keys / str methods on single characters run as in Python (22^len paths for hex digits)
+        if len(self.c) <= getattr(core._CTX, "str_iter_concrete", 0):
+            for x in self.c:
+                yield chr(x.__index__() if isinstance(x, SymInt) else x)
+            return
         for x in self.c:
             yield SymStr([x])._maybe()
 
